@@ -40,6 +40,12 @@ func main() {
 		fail(err)
 	}
 	for _, pkg := range os.Args[4:] {
+		if strings.HasSuffix(pkg, ".go") { // a single file
+			if err := rewriteFile(filepath.Join(dst, pkg), pkg); err != nil {
+				fail(fmt.Errorf("%s: %w", pkg, err))
+			}
+			continue
+		}
 		dir := filepath.Join(dst, pkg)
 		entries, err := os.ReadDir(dir)
 		if err != nil {
